@@ -35,6 +35,8 @@ enum Op {
     /// by a fresh SET_FEATURES with an offered mask and re-enabling of the rings
     Reset(bool, u64),
     SetCall(usize),
+    /// SET_VRING_CALL without a descriptor: the ring has no call descriptor afterwards
+    DropCall(usize),
     SetKick(usize),
     ReplaceTable,
     /// per-ring message kind 0..7 with an out-of-range ring index
@@ -121,7 +123,7 @@ fn run_v<V: VringT<GM<()>> + Clone + Send + Sync + 'static>(sim: &Sim, _cfg: &Ru
         let mut ops = Vec::new();
         for _ in 0..n {
             let r = t.draw(nrings as u64) as usize;
-            ops.push(match t.draw(19) {
+            ops.push(match t.draw(20) {
                 0 | 1 => Op::SetNum(r, gen_num(t)),
                 2 => Op::SetBase(r, t.lattice32() as u16),
                 3 | 4 => {
@@ -132,6 +134,7 @@ fn run_v<V: VringT<GM<()>> + Clone + Send + Sync + 'static>(sim: &Sim, _cfg: &Ru
                     Op::SetAddr(r, d, a, u, t.lattice32() as u16, t.draw(2) as usize)
                 }
                 17 => Op::AddrOutside(r, t.draw(3) as u8),
+                18 => Op::DropCall(r),
                 5 => Op::GetBase(r),
                 6 | 7 | 8 => Op::Kick(r),
                 9 => {
@@ -348,6 +351,21 @@ fn run_v<V: VringT<GM<()>> + Clone + Send + Sync + 'static>(sim: &Sim, _cfg: &Ru
                 }
                 callfds.push(fd);
                 m[*r].call = Some(callfds.len() - 1);
+            }
+            Op::DropCall(r) => {
+                // the Frontend API always passes a descriptor: raw bytes on the same connection
+                let req = spec::FReq::SetVringCall { idx: *r as u8, nofd: true };
+                let fd = vmm.raw.as_raw_fd();
+                if fdu::raw_send_segmented(fd, &req.wire(acks), &[], &[], 0).is_err() {
+                    viol("control_message_failed", "SET_VRING_CALL".into(), format!("step {step} {op:?}: send failed"));
+                }
+                if acks {
+                    match fdu::raw_recv_exact(fd, spec::HDR + 8, "vmm.recv") {
+                        Ok((b, _)) if b.len() == spec::HDR + 8 && spec::g64(&b, spec::HDR) == 0 => {}
+                        other => viol("control_message_failed", "SET_VRING_CALL".into(), format!("step {step} {op:?}: not acknowledged with 0: {:?}", other.map(|x| x.0))),
+                    }
+                }
+                m[*r].call = None;
             }
             Op::SetFeatures(mask) | Op::Reset(_, mask) => {
                 if let Op::Reset(owner, _) = op {
